@@ -220,8 +220,41 @@ fn k_colourable(input: &[(String, String)], k: usize) -> bool {
     }
 }
 
-/// does the output edge list contain a clique with exactly one vertex `<v>_c<k>` per input vertex?
-fn covering_clique(output: &[(String, String)], input_vertices: &[String], k: usize) -> bool {
+/// How the colour copies of the input vertices are spelt is not prescribed: the scheme is read off
+/// the output (`<v>_c<k>` or `c<k>_<v>`); every output vertex must be a copy under ONE scheme.
+#[derive(Clone, Copy, Debug, PartialEq)]
+enum CopyScheme {
+    Suffix,
+    Prefix,
+}
+
+fn copy_name(scheme: CopyScheme, v: &str, k: usize) -> String {
+    match scheme {
+        CopyScheme::Suffix => format!("{}_c{}", v, k),
+        CopyScheme::Prefix => format!("c{}_{}", k, v),
+    }
+}
+
+fn copy_scheme(output: &[(String, String)], input_vertices: &[String], k: usize) -> Result<CopyScheme, String> {
+    let present: BTreeSet<&String> = output.iter().flat_map(|(a, b)| [a, b]).collect();
+    for scheme in [CopyScheme::Suffix, CopyScheme::Prefix] {
+        let all = present
+            .iter()
+            .all(|x| input_vertices.iter().any(|vn| (0..k).any(|c| **x == copy_name(scheme, vn, c))));
+        if all {
+            return Ok(scheme);
+        }
+    }
+    let odd = present
+        .iter()
+        .find(|x| !input_vertices.iter().any(|vn| (0..k).any(|c| ***x == copy_name(CopyScheme::Suffix, vn, c))))
+        .map(|x| x.to_string())
+        .unwrap_or_default();
+    Err(format!("output vertex {} is not a colour copy (<input vertex>_c<colour> or c<colour>_<input vertex>) of an input vertex", odd))
+}
+
+/// does the output edge list contain a clique with exactly one colour copy per input vertex?
+fn covering_clique(output: &[(String, String)], input_vertices: &[String], k: usize, scheme: CopyScheme) -> bool {
     let adj: BTreeSet<(String, String)> = output
         .iter()
         .flat_map(|(a, b)| [(a.clone(), b.clone()), (b.clone(), a.clone())])
@@ -236,7 +269,7 @@ fn covering_clique(output: &[(String, String)], input_vertices: &[String], k: us
     let present: BTreeSet<String> = output.iter().flat_map(|(a, b)| [a.clone(), b.clone()]).collect();
     let mut choice = vec![0usize; n];
     loop {
-        let names: Vec<String> = (0..n).map(|i| format!("{}_c{}", input_vertices[i], choice[i])).collect();
+        let names: Vec<String> = (0..n).map(|i| copy_name(scheme, &input_vertices[i], choice[i])).collect();
         let ok = (n == 1 && present.contains(&names[0]))
             || (n > 1
                 && (0..n).all(|i| ((i + 1)..n).all(|j| adj.contains(&(names[i].clone(), names[j].clone())))));
@@ -401,7 +434,9 @@ pub fn check_case(c: &Case) -> Check {
             let es = parse_output(&out.out(), false, *undirected).map_err(|e| v(e))?;
             let vs = vertices_of(input);
             let want = k_colourable(input, *colors);
-            let got = covering_clique(&es, &vs, *colors);
+            // output vertices are well-formed copies under one naming scheme
+            let scheme = copy_scheme(&es, &vs, *colors).map_err(|e| v(e))?;
+            let got = covering_clique(&es, &vs, *colors, scheme);
             if got != want {
                 return Err(v(format!(
                     "the input graph {} {}-colourable but the output graph {} a clique covering every input vertex",
@@ -409,15 +444,6 @@ pub fn check_case(c: &Case) -> Check {
                     colors,
                     if got { "has" } else { "has no" }
                 )));
-            }
-            // output vertices are well-formed copies
-            for (a, b) in &es {
-                for x in [a, b] {
-                    let ok = vs.iter().any(|vn| (0..*colors).any(|k| *x == format!("{}_c{}", vn, k)));
-                    if !ok {
-                        return Err(v(format!("output vertex {} is not <input vertex>_c<colour>", x)));
-                    }
-                }
             }
             Ok(())
         }
